@@ -89,7 +89,7 @@ func main() {
 	r.Set("exhaustive", exhaustive)
 	r.Set("parts", perPart)
 	r.Set("rule", "the scenario sets of the listed parts (token routing, de-duplication, retransmission, observe streams; see their own evidence for the spaces) re-executed with the pool lifecycle tracker: violation = second release of an object, any *pool.Message method call on a released object, release of a message while the application holds it (response returned from Do, request inside a handler, notification inside a callback), or a change of its content during that window")
-	r.Assume("all pool.Message fields are unexported, so method-entry checks see every library access", "leaks (never released) are not violations of C12", "the tracker ignores the unwinding of threads after an execution has ended")
+	r.Assume("all pool.Message fields are unexported, so method-entry checks see every library access", "leaks (never released) are not violations of C12", "the tracker ignores the unwinding of threads after an execution has ended", "findings of a part's own functional oracle (wrong body, wrong caller, ...) are not C12 violations: the part's own property check runs the same scenarios with the same oracle and the same poison-on-release; here they are only counted in the part's evidence")
 	if failed {
 		// the part binaries already printed their VIOLATION lines and wrote the replay files
 		r.Set("part_reported_violations", true)
